@@ -226,11 +226,11 @@ def run_translator():
         return {}
 
 
-def lake_build():
+def lake_build(targets=()):
     """returns (ok, failed_modules, output). Serialised across concurrent checks."""
     with FileLock(os.path.join(SCRATCH, "lake.lock")):
         t0 = time.time()
-        r = subprocess.run(["lake", "build"], cwd=LEAN_DIR, capture_output=True, text=True)
+        r = subprocess.run(["lake", "build"] + list(targets), cwd=LEAN_DIR, capture_output=True, text=True)
         out = r.stdout + r.stderr
         failed = re.findall(r"^✖ \[\d+/\d+\] Building (\S+)", out, re.M)
         failed += [m for m in re.findall(r"^- (\S+)$", out, re.M) if m not in failed]
@@ -238,8 +238,8 @@ def lake_build():
         return r.returncode == 0, failed, out
 
 
-def driver_path():
-    return os.path.join(LEAN_DIR, ".lake", "build", "bin", "driver")
+def driver_path(engine):
+    return os.path.join(LEAN_DIR, ".lake", "build", "bin", "drv_" + engine)
 
 
 def module_imports(mod):
@@ -426,7 +426,7 @@ def run_driver(engine, pairs, jobs=None):
     if not pairs:
         return {}
     jobs = jobs or NCPU
-    drv = driver_path()
+    drv = driver_path(engine)
     n = len(pairs)
     chunk = max(1, (n + jobs - 1) // jobs)
     chunks = [pairs[i:i + chunk] for i in range(0, n, chunk)]
@@ -568,12 +568,13 @@ def run_check(mod, tier, seed, replay=None):
 
     # 1. translator + proof obligations
     trep = run_translator()
-    ok, failed, out = lake_build()
+    ok, failed, out = lake_build(["+OomdProps." + prop, "drv_" + mod.ENGINE])
     proof_broken = []
-    driver_ok = os.path.exists(driver_path())
+    engine_mod = "Driver." + mod.ENGINE.capitalize()
+    driver_ok = True
     if not ok:
         deps = module_imports("OomdProps." + prop)
-        ddeps = module_imports("Main")
+        ddeps = module_imports(engine_mod)
         proof_broken = [m for m in failed if m in deps]
         if any(m in ddeps for m in failed):
             driver_ok = False
@@ -581,6 +582,7 @@ def run_check(mod, tier, seed, replay=None):
             log("[lean] build failure outside %s's dependencies: %s" % (prop, failed))
         if failed == []:
             raise InfraError("lake build failed without a module error:\n" + out[-3000:])
+    driver_ok = driver_ok and os.path.exists(driver_path(mod.ENGINE))
     aud = {"theorems": [], "axioms": [], "problems": []}
     if not proof_broken:
         aud = audit(prop)
